@@ -84,13 +84,14 @@ def main() -> int:
     replay_path = None
     tail = ""
     if violations:
-        v = violations[0]
+        v, shrink_info = framework.shrink(mod, pid, a.tier, seed, violations)
         replay_path = framework.write_replay(pid, {"property": pid, "kind": "oracle", "suite": v["suite"],
                                                    "case": v["case"], "detail": v["detail"],
                                                    "impl_eq_model": v["impl_eq_model"], "seed": seed, "tier": a.tier,
                                                    "reproduce_cmd": f"VERIF_SEED={seed} /venv/bin/python check.py {pid} --tier {a.tier}",
                                                    "note": "cases run in one process in a fixed, seeded order; if --replay of this single case passes, the "
                                                            "failure depends on the history of earlier cases (shared state) and reproduce_cmd replays that history",
+                                                   "case_original": v.get("case_original"), "shrink": shrink_info,
                                                    "others": len(violations) - 1})
         rc = 1
     elif ctx.disagreements or problems or len(ctx.unstable) > max(2, 0.002 * ctx.evaluations):
